@@ -40,18 +40,19 @@ Definition sublist {A} (start len : N) (l : list A) : list A :=
 Definition lift (st : mstate) (r : res view) : res mstate :=
   match r with Ok v => Ok (mkM (m_store st) v) | Err e => Err e end.
 
-(* the model's prediction for one operation *)
-Definition apply_op (o : op) (st : mstate) : res mstate :=
+(* the model's prediction for one operation; [w = true] follows a release build (wrapping
+   usize products), [w = false] is exact arithmetic (the mode the theorems are stated in) *)
+Definition apply_op (w : bool) (o : op) (st : mstate) : res mstate :=
   let v := m_view st in
   match o with
-  | OSlice items => if zero_step items then Err EPanic else lift st (slice true v items)
+  | OSlice items => if zero_step items then Err EPanic else lift st (slice w v items)
   | OSliceAxis axis a b => lift st (slice_axis v axis a b)
   | OIndexAxis axis i => lift st (index_axis v axis i)
   | OPermute p => lift st (permuted v p)
   | OTranspose => Ok (mkM (m_store st) (transposed v))
   | OMoveAxis f t => lift st (move_axis v f t)
   | OBroadcast target => lift st (broadcast v target)
-  | OReshapeView shape => lift st (reshaped_for_view v shape)
+  | OReshapeView shape => lift st (reshaped_for_view w v shape)
   | OSqueeze => Ok (mkM (m_store st) (squeezed v))
   | OInsertAxis i => lift st (insert_axis v i)
   | ORemoveAxis i => lift st (remove_axis v i)
@@ -59,12 +60,12 @@ Definition apply_op (o : op) (st : mstate) : res mstate :=
   | OSplit axis mid rt => lift st (split v axis mid rt)
   | OSliceCopy items =>
       if zero_step items then Err EPanic
-      else match slice_copy true (m_store st) v items with
+      else match slice_copy w (m_store st) v items with
            | Ok t => Ok (fresh t)
            | Err e => Err e
            end
   | OReshape shape =>
-      match reshaped_for_view v shape with
+      match reshaped_for_view w v shape with
       | Ok v' => Ok (mkM (m_store st) v')
       | Err _ =>
           if prodN shape =? prod_sizes (v_dims v) then
@@ -75,7 +76,7 @@ Definition apply_op (o : op) (st : mstate) : res mstate :=
           else Err EPanic
       end
   | OToContiguous =>
-      if is_contiguous true (v_dims v) then Ok st
+      if is_contiguous w (v_dims v) then Ok st
       else match denote_fast (m_store st) v with
            | Some t => Ok (fresh t)
            | None => Err EPanic
@@ -84,7 +85,7 @@ Definition apply_op (o : op) (st : mstate) : res mstate :=
       (* the harness copies the view's storage window into a Vec and calls
          from_data_with_strides (DisallowOverlap) to obtain an owned tensor *)
       let dims := v_dims v in
-      if may_have_internal_overlap true (shape_of dims) (strides_of dims) then Err MayOverlap
+      if may_have_internal_overlap w (shape_of dims) (strides_of dims) then Err MayOverlap
       else if ndim dims <=? dm then Err EPanic
       else
         let d := nthN dims dm (0, 0) in
@@ -143,7 +144,7 @@ Inductive outcome :=
 | OOk (shape strides elems : list N) (alts : list (N * list N * list N))
 | OErr (e : err).
 
-Record case := {
+Record chain_case := {
   c_len : N;                       (* storage = [0, 1, ..., len-1] *)
   c_off : N; c_shape : list N; c_strides : list N;     (* source view *)
   c_src : outcome;                 (* what the implementation shows for the source view *)
@@ -166,18 +167,18 @@ Fixpoint agree_steps (st : mstate) (steps : list (op * outcome)) : bool :=
   match steps with
   | [] => true
   | (o, out) :: r =>
-      match apply_op o st, out with
+      match apply_op true o st, out with
       | Ok st', OOk _ _ _ _ => obs_eqb st' out && agree_steps st' r
       | Err e, OErr e' => err_eqb e e' && agree_steps st r
       | _, _ => false
       end
   end.
 
-Definition init_state (c : case) : mstate :=
+Definition init_state (c : chain_case) : mstate :=
   mkM (range (c_len c)) (mkV (c_off c) (combine (c_strides c) (c_shape c))).
 
 (* model = implementation on every step of the chain *)
-Definition agree (c : case) : bool :=
+Definition agree_chain (c : chain_case) : bool :=
   obs_eqb (init_state c) (c_src c) && agree_steps (init_state c) (c_steps c).
 
 Definition alts_ok (t : tensor N) (alts : list (N * list N * list N)) : bool :=
@@ -201,7 +202,7 @@ Fixpoint prop_steps (prev : tensor N) (steps : list (op * outcome)) : bool :=
       && prop_steps prev r
   end.
 
-Definition prop_ok (c : case) : bool :=
+Definition prop_ok_chain (c : chain_case) : bool :=
   match c_src c with
   | OOk shape _ elems alts =>
       (* the source itself: a strided view denotes the storage elements at its offsets *)
@@ -230,16 +231,56 @@ Fixpoint show_steps (st : mstate) (prev : option (tensor N)) (steps : list (op *
                   | None, _ => None
                   end in
       let prev' := match out with OOk shape _ elems _ => Some (mkT shape elems) | OErr _ => prev end in
-      match apply_op o st with
+      match apply_op true o st with
       | Ok st' => (show_state st', refr) :: show_steps st' prev' r
       | Err e => (SErr e, refr) :: show_steps st prev' r
       end
   end.
 (* per step: (model's result, reference result on the implementation's previous tensor) *)
-Definition show (c : case) :=
+Definition show_chain (c : chain_case) :=
   (show_state (init_state c),
    show_steps (init_state c)
               (match c_src c with OOk s _ e _ => Some (mkT s e) | OErr _ => None end) (c_steps c)).
+
+(* ---------------------------------------------------------------- vocabulary of the theorems *)
+(* the logical tensor a model state stands for *)
+Definition mdenote (st : mstate) : option (tensor N) := denote (m_store st) (m_view st).
+Definition result_shape (st : mstate) : list N := shape_of (v_dims (m_view st)).
+
+(* operations whose model is proved against the reference (clip_dim is exercised by the
+   correspondence check only) *)
+Definition proved_op (o : op) : bool :=
+  match o with OClipDim _ _ _ => false | _ => true end.
+
+(* operations for which the error direction is proved as well *)
+Definition error_proved_op (o : op) : bool :=
+  match o with OClipDim _ _ _ | OSliceCopy _ => false | _ => true end.
+
+(* states after each operation; stops at the first error *)
+Fixpoint run_chain (w : bool) (ops : list op) (st : mstate) : res (list mstate) :=
+  match ops with
+  | [] => Ok []
+  | o :: r =>
+      match apply_op w o st with
+      | Err e => Err e
+      | Ok st1 => match run_chain w r st1 with
+                  | Err e => Err e
+                  | Ok l => Ok (st1 :: l)
+                  end
+      end
+  end.
+
+(* the same chain on the reference side; [shapes] are the result shapes, consulted only by
+   merge_axes *)
+Fixpoint ref_chain (ops : list op) (shapes : list (list N)) (t : tensor N) : option (tensor N) :=
+  match ops, shapes with
+  | [], _ => Some t
+  | o :: r, sh :: shs => match ref_apply o t sh with
+                         | Some t1 => ref_chain r shs t1
+                         | None => None
+                         end
+  | _ :: _, [] => None
+  end.
 
 (* ---------------------------------------------------------------- SliceRange small scope *)
 (* one (range, dimension size) pair and what the public API shows for it on arange(n) *)
@@ -272,8 +313,8 @@ Definition agree_sr (c : sr_case) : bool :=
   (Z.eqb (sr_start cl) (fst (q_clamp c)) && opt_eqb Z.eqb (sr_end cl) (snd (q_clamp c)))
   && opt_eqb (fun a b : N * N => (fst a =? fst b) && (snd a =? snd b)) (sr_resolve r (q_n c)) (q_resolve c)
   && (sr_steps r (q_n c) =? q_steps c)
-  && out_matches (apply_op (OSlice [q_item c]) (q_state c)) (q_view c)
-  && out_matches (apply_op (OSliceCopy [q_item c]) (q_state c)) (q_copy c).
+  && out_matches (apply_op true (OSlice [q_item c]) (q_state c)) (q_view c)
+  && out_matches (apply_op true (OSliceCopy [q_item c]) (q_state c)) (q_copy c).
 
 Definition out_is_ref (r : option (tensor N)) (o : outcome) : bool :=
   match r, o with
@@ -308,5 +349,18 @@ Definition prop_ok_sr (c : sr_case) : bool :=
 Definition show_sr (c : sr_case) :=
   (sr_clamp (q_range c) (q_n c), sr_resolve (q_range c) (q_n c), sr_steps (q_range c) (q_n c),
    py_indices (q_n c) (q_start c) (q_end c) (q_step c),
-   match apply_op (OSliceCopy [q_item c]) (q_state c) with
+   match apply_op true (OSliceCopy [q_item c]) (q_state c) with
    | Ok st => show_state st | Err e => SErr e end).
+
+(* ---------------------------------------------------------------- the case type of the check *)
+(* one type for both kinds of case printed by the harness *)
+Inductive case := CChain (c : chain_case) | CRange (q : sr_case).
+
+Definition agree (c : case) : bool :=
+  match c with CChain c => agree_chain c | CRange q => agree_sr q end.
+Definition prop_ok (c : case) : bool :=
+  match c with CChain c => prop_ok_chain c | CRange q => prop_ok_sr q end.
+
+Inductive shown_case {X Y : Type} := ShChain (x : X) | ShRange (y : Y).
+Definition show (c : case) :=
+  match c with CChain c => ShChain (show_chain c) | CRange q => ShRange (show_sr q) end.
